@@ -68,7 +68,9 @@ for src in sorted(glob.glob(f'{V}/checks/*.cc')):
     if variant not in want:
         continue
     name = os.path.basename(src)[:-3]
-    L.append(f'build obj/chk_{name}.o: chk {src}')
+    # a checker may ask for extra compiler flags in a first-lines comment `// EXTRA: -fno-access-control` (reading private members of library objects)
+    mx = re.search(r'EXTRA:\s*(\S.*)', head)
+    L.append(f'build obj/chk_{name}.o: chk {src}' + (f'\n  extra = {mx.group(1).strip()}' if mx else ''))
     L.append(f'build bin/{name}: link obj/chk_{name}.o ' + ('libmc.a ' if mcobjs else '') + f'libwb.a\n  objs = obj/chk_{name}.o ' + ('libmc.a' if mcobjs else ''))
     targets.append(f'bin/{name}')
 L.append('default ' + ' '.join(targets))
